@@ -268,6 +268,50 @@ def RunSpec (b : Backend) (mds : List Md) (uses : List Use) : Outcome → Prop
 instance (b : Backend) (mds : List Md) (uses : List Use) (r : Outcome) : Decidable (RunSpec b mds uses r) := by
   unfold RunSpec; cases r <;> exact inferInstance
 
+/-! ## the include / library clause when other sources of headers are present
+
+`RunSpec` asks for the include list to be *exactly* the de-duplicated headers of the used
+collections.  A query that also calls C++ functions (built-in `DeltaR`, math functions, functions
+declared with `add_cpp_function`) or carries `inject_code` blocks legitimately includes more: the
+clause is then judged
+ * `restricted` — on the sub-list of the observed body includes that are collection headers
+   (still: once each, in order of first use);
+ * `cover`      — on the include closure of the rendered main source (the main file's own
+   `#include` lines and those of every rendered file it includes): every header of every used
+   collection occurs in it ("requests the headers … that container needs"). -/
+
+inductive IncMode where
+  | exact | restricted | cover
+deriving DecidableEq, Repr, Inhabited
+
+def IncSpec (m : IncMode) (wanted out : List Text) : Prop :=
+  match m with
+  | .exact => DedupSpec wanted out
+  | .restricted => DedupSpec wanted (out.filter (fun h => decide (h ∈ wanted)))
+  | .cover => ∀ h ∈ wanted, h ∈ out
+
+instance (m : IncMode) (w o : List Text) : Decidable (IncSpec m w o) := by
+  unfold IncSpec; cases m <;> exact inferInstance
+
+def JobSpecM (m : IncMode) (b : Backend) (ds : List (Decl × Text)) (o : Obs) : Prop :=
+  o.frags.length = ds.length ∧
+  (∀ p ∈ ds.zip o.frags, FragSpec b p.1.1 p.1.2 p.2) ∧
+  (o.frags.map (·.var)).Nodup ∧
+  TokenSpec b ds o ∧
+  IncSpec m (ds.flatMap (·.1.includes)) o.includes ∧
+  IncSpec m (ds.flatMap (·.1.libraries)) o.libs
+
+instance (m : IncMode) (b : Backend) (ds : List (Decl × Text)) (o : Obs) : Decidable (JobSpecM m b ds o) := by
+  unfold JobSpecM; exact inferInstance
+
+/-- **C06** with the include clause judged in mode `m` (`RunSpecM .exact` is `RunSpec`). -/
+def RunSpecM (m : IncMode) (b : Backend) (mds : List Md) (uses : List Use) : Outcome → Prop
+  | .rejected => ¬ Acceptable b mds uses
+  | .ok o => Acceptable b mds uses ∧ JobSpecM m b (resolveAll b mds uses) o
+
+instance (m : IncMode) (b : Backend) (mds : List Md) (uses : List Use) (r : Outcome) : Decidable (RunSpecM m b mds uses r) := by
+  unfold RunSpecM; cases r <;> exact inferInstance
+
 /-! ## how the model's output is observed -/
 
 /-- how the translator goes on to use the value of the call: how many loops it opens over it,
@@ -555,5 +599,17 @@ def observeText (body classDecl book includes libs : List Text) : Obs :=
     classDecls := classDecl.filter (fun l => isInfix (t!"EDGetTokenT<") l),
     book := book.filter (fun l => isInfix (t!"consumes<") l),
     includes := includes, libs := libs }
+
+/-- a block `{ …; x = result; }` that asks the event store / the event for something; the inline
+blocks of C++ functions (`DeltaR`, `add_cpp_function` code) end in `x = result;` too and are no
+retrievals -/
+def isRetrievalBlock (blk : List Text) : Bool :=
+  blk.any fun l => isInfix (t!"retrieve(") l || isInfix (t!"getByLabel(") l || isInfix (t!"getByToken(") l
+
+/-- `observeText` for jobs that also call C++ functions: only the blocks that carry a retrieval
+call are retrievals (a retrieval block that lost its idiom line is then a missing block) -/
+def observeTextR (body classDecl book includes libs : List Text) : Obs :=
+  { observeText body classDecl book includes libs with
+    frags := ((findBlocks body).filter isRetrievalBlock).map (observeBlock body) }
 
 end FaxVerif.C06
